@@ -133,7 +133,20 @@ impl Prop for C03 {
 	fn strategy(_tier: Tier) -> BoxedStrategy<Case> {
 		(gen::fam(), prop_oneof![Just(Route::Standalone), Just(Route::InFull), Just(Route::InReference)])
 			.prop_flat_map(|(f, route)| {
-				gen::authority(Opt::new(f).with_nonutf8(true)).prop_map(move |authority| Case { fam: f, authority, route })
+				let o = Opt::new(f).with_nonutf8(true);
+				prop_oneof![
+					400 => gen::authority(o),
+					// components crossing 255 / 4 KiB / 64 KiB (narrow offset types, block scanners)
+					1 => (gen::auth_parts(o), proptest::sample::select(vec![250usize, 256, 4090, 4096, 65530, 65536, 65540, 70000]), 0u8..3).prop_map(|(mut p, n, which)| {
+						match which {
+							0 => p.userinfo = Some(format!("{}{}", p.userinfo.unwrap_or_default(), "u".repeat(n))),
+							1 => { if !p.host.starts_with('[') { p.host = format!("{}{}", p.host, "h".repeat(n)) } else { p.userinfo = Some("w".repeat(n)) } }
+							_ => p.port = Some(format!("{}{}", p.port.unwrap_or_default(), "7".repeat(n))),
+						}
+						recompose_authority(&p)
+					}),
+				]
+				.prop_map(move |authority| Case { fam: f, authority, route })
 			})
 			.boxed()
 	}
